@@ -36,7 +36,7 @@ RULE = (
 EXHAUSTIVE = ["truncation at every line of each generated multi-frame file", "corrupted frame index k for every k"]
 ASSUMPTIONS = ["spec writers (vf/ref/spec_writers) for the load side", "M4/M5 proxies are honoured by dump_many"]
 TIMEOUT = {"quick": 1200, "thorough": 7200}
-LOAD_CLASSES = {"xyz": ["trajectory", "blank_titles"], "sdf": ["trajectory", "blank_titles"], "gromacs": ["trajectory"], "extxyz": ["trajectory"],
+LOAD_CLASSES = {"xyz": ["trajectory", "blank_titles"], "sdf": ["trajectory", "blank_titles"], "gromacs": ["trajectory"], "extxyz": ["trajectory", "trajectory_mixed_columns"],
                 "mol2": ["multi_molecule"], "pdb": ["concatenated", "models"], "fchk_traj": ["opt", "irc", "scan", "tsopt_freq"]}
 
 
